@@ -1252,25 +1252,27 @@ namespace Pistache::Http
 
     void Timeout::disarm()
     {
-        if (transport && armed)
+        if (transport && isArmed())
         {
             transport->disarmTimer(timerFd);
+            armed->store(false);
         }
     }
 
-    bool Timeout::isArmed() const { return armed; }
+    bool Timeout::isArmed() const { return armed && armed->load(); }
 
     Timeout::Timeout(Tcp::Transport* transport_, Http::Version version, Handler* handler_,
                      std::weak_ptr<Tcp::Peer> peer_)
         : handler(handler_)
         , version(version)
         , transport(transport_)
-        , armed(false)
+        , armed(std::make_shared<std::atomic<bool>>(false))
         , timerFd(-1)
         , peer(peer_)
     { }
 
-    void Timeout::onTimeout(uint64_t /*numWakeup*/)
+    void Timeout::onTimeout(Handler* handler, Http::Version version, Tcp::Transport* transport,
+                            const std::weak_ptr<Tcp::Peer>& peer)
     {
         auto sp = peer.lock();
         if (!sp)
